@@ -138,11 +138,14 @@ CANARIES = [
     ('spill-keeps-old-root', 'C05', 'src/bucket.rs', '        self.meta.root_page = page_id;\n\n        Ok(self.meta)', '        let _ = page_id;\n\n        Ok(self.meta)'),
     ('spill-bumps-counter', 'C01', 'src/bucket.rs', '        self.meta.root_page = page_id;\n\n        Ok(self.meta)', '        self.meta.root_page = page_id;\n        self.meta.next_int += 1;\n\n        Ok(self.meta)'),
     ('spill-skips-some-children', 'C05', 'src/bucket.rs', '            let bucket_meta = b.spill(tx_freelist)?;\n            // Store updated bucket metadata in a map since self is borrowed\n            bucket_metas.insert(key.clone(), bucket_meta);', '            if b.meta.next_int % 2 == 1 { continue; }\n            let bucket_meta = b.spill(tx_freelist)?;\n            bucket_metas.insert(key.clone(), bucket_meta);'),
+    ('merge-branches-unsorted', 'C05', 'src/node.rs', '                b1.append(b2);\n                b1.sort_unstable_by_key(|b| b.key.clone());', '                b1.append(b2);'),
+    ('merge-loses-other-node', 'C05', 'src/node.rs', '                l1.append(l2);\n', '                l2.clear();\n'),
 ]
 
 
 # Semantics-PRESERVING edits: the check must NOT answer exit 1 for any of them (exit 0 or exit 2 are both acceptable).
 EQUIVALENTS = [
+    ('eq-merge-no-diagnostic-pass', 'C05', 'src/node.rs', '                let mut last = l1[0].key();\n                for l in l1[1..].iter() {\n                    if last >= l.key() {\n                        println!("HA. GOT \'EM!");\n                    }\n                    last = l.key();\n                }\n', ''),
     # a child without changes answers with its committed header: storing it again or not is the same
     ('eq-spill-skips-clean-children', 'C05', 'src/bucket.rs', '            let bucket_meta = b.spill(tx_freelist)?;\n            // Store updated bucket metadata in a map since self is borrowed\n            bucket_metas.insert(key.clone(), bucket_meta);', '            if !b.dirty { continue; }\n            let bucket_meta = b.spill(tx_freelist)?;\n            bucket_metas.insert(key.clone(), bucket_meta);'),
     # rewriting a bucket nobody touched costs pages but breaks nothing
